@@ -4,7 +4,7 @@
    dependency list.  [Reach g T x]: x is reachable from T along dependency edges;
    [Path g x x]: x lies on a cycle. *)
 From Coq Require Import List Arith Bool Permutation.
-From Conductor Require Import Model.Loader Model.Planner Model.Exec Model.RunCase Proofs.LoaderProofs Proofs.ValidateProofs.
+From Conductor Require Import Model.Loader Model.Planner Model.Exec Model.RunCase Proofs.LoaderProofs Proofs.ValidateProofs Proofs.LoaderKinds.
 Import ListNotations.
 
 (* every outcome is justified: a cycle error => a cycle is reachable; task-not-found for x => x is
@@ -40,6 +40,37 @@ Theorem C14_accept_iff : forall g T V,
   ((exists v, load_closure g (fuel_bound g V) T = Ok v) <-> ~ Defect g T).
 Proof. exact accept_iff. Qed.
 Print Assumptions C14_accept_iff.
+
+(* "reports a cyclic-dependency error iff ..., a task-not-found error iff ..., a duplicate-dependency error iff ...": several
+   kinds of defect can be reachable at once and only the first one met is reported, so the per-kind equivalence holds in this
+   form -- whenever any defect is reachable an error is reported and the reported error is real, ... *)
+Theorem C14_some_real_error_reported : forall g T V,
+  finite_project g T V -> Defect g T ->
+  let r := load_closure g (fuel_bound g V) T in
+  (r = ErrCycle /\ DCycle g T) \/ (exists x, r = ErrNotFound x /\ Reach g T x /\ g x = Undefined) \/
+  (exists x, r = ErrBad x /\ Reach g T x /\ g x = Bad) \/
+  (exists x, r = ErrDup x /\ Reach g T x /\ exists ds, g x = Good ds /\ has_dup ds = true).
+Proof. exact some_real_error_reported. Qed.
+Print Assumptions C14_some_real_error_reported.
+
+(* ... and per kind: the error of a kind is reported ONLY IF a defect of that kind is reachable (no side condition), and IF
+   defects of that kind are the only ones reachable *)
+Theorem C14_error_kinds : forall g T V,
+  finite_project g T V ->
+  let r := load_closure g (fuel_bound g V) T in
+  (r = ErrCycle -> DCycle g T) /\ ((exists x, r = ErrNotFound x) -> DUndef g T) /\ ((exists x, r = ErrDup x) -> DDup g T) /\
+  ((exists x, r = ErrBad x) -> DBad g T) /\
+  (DCycle g T -> ~ DUndef g T -> ~ DBad g T -> ~ DDup g T -> r = ErrCycle) /\
+  (DUndef g T -> ~ DCycle g T -> ~ DBad g T -> ~ DDup g T -> exists x, r = ErrNotFound x) /\
+  (DDup g T -> ~ DCycle g T -> ~ DUndef g T -> ~ DBad g T -> exists x, r = ErrDup x).
+Proof. exact error_kinds. Qed.
+Print Assumptions C14_error_kinds.
+
+(* two kinds at once: which one is reported depends on the listing order, so no stronger per-kind statement holds *)
+Example C14_two_kinds_first_met_wins :
+  load_closure (fun x => match x with 0 => Good [2; 1] | 1 => Good [0] | _ => Undefined end) 50 0 = ErrCycle /\
+  load_closure (fun x => match x with 0 => Good [1; 2] | 1 => Good [0] | _ => Undefined end) 50 0 = ErrNotFound 2.
+Proof. vm_compute. auto. Qed.
 
 (* acceptance does not depend on the order in which any task lists its dependencies *)
 Theorem C14_order_independent : forall g g' T V,
